@@ -12,7 +12,7 @@ for sid in sorted(os.listdir(os.path.join(HERE, "seeded"))):
         continue
     pid = sid.split("-")[0]
     # a seed may also be caught by an obligation that belongs to another property's check
-    ALSO = {"C05-1": ["C20"], "C09-5": ["C01"]}
+    ALSO = {"C05-1": ["C20"], "C09-5": ["C01"], "C20-5": ["C17"]}
     st = subprocess.run(["git", "-C", "/repo", "status", "--porcelain"], capture_output=True, text=True).stdout.strip()
     if st:
         print("refusing: /repo has local changes:\n" + st); sys.exit(2)
